@@ -64,7 +64,13 @@ class ForLoop:
     def register_indexed_symbol(
         self, e, index_function, transpose, tree, index_expr=None, dim=None
     ):
-        if isinstance(index_expr, ca.MX) and index_expr is not self.index_variable:
+        if (
+            isinstance(index_expr, ca.MX)
+            and index_expr is not self.index_variable
+            and len(self.values) > 0
+        ):
+            # (A loop over an empty range has no index values to evaluate: CasADi cannot map over zero
+            # values, and exitForEquation drops the loop anyway.)
             F = ca.Function("index_expr", [self.index_variable], [index_expr])
             # expr = lambda ar: np.array([F(a)[0] for a in ar], dtype=int)
             Fmap = F.map("map", self.generator.map_mode, len(self.values), [], [])
